@@ -173,7 +173,7 @@ class LayoutGen:
         shape = r.choice(self.shapes)
         forms = ["abs"]
         if refs_exist:
-            forms = ["abs", "dir", "dir", "loc", "loc", "cxyloc", "axis", "axis", "scalar", "relsize", "relsize"]
+            forms = ["abs", "dir", "dir", "loc", "loc", "cxyloc", "axis", "axis", "axis1", "scalar", "relsize", "relsize"]
         if self.forms:
             forms = [f for f in forms if f in self.forms] or ["abs"]
         form = r.choice(forms)
@@ -307,6 +307,27 @@ class LayoutGen:
             x = vx - {"x": F(0), "x1": F(0), "cx": w / 2, "x2": w}[kx]
             y = vy - {"y": F(0), "y1": F(0), "cy": h / 2, "y2": h}[ky]
             box = Box(x, y, x + w, y + h)
+        elif form == "axis1":
+            # positioned on ONE axis only; the other axis keeps the SVG default (x / y = 0 for a rect, cx / cy = 0 for a round shape)
+            rt1, re1 = self.pick_ref()
+            deps.append(re1.id)
+            ax = r.choice("xy")
+            kinds = ["", "2", "c"] if shape not in ("rect", "box") else ["", "1", "2", "c"]
+            kd = r.choice(kinds)
+            name = ("c" + ax) if kd == "c" else (ax + kd)
+            ls = self.locspec()
+            px, py = re1.box.point(ls)
+            v = px if ax == "x" else py
+            attrs.append((name, "%s@%s" % (rt1, locspec_text(ls))))
+            ext = w if ax == "x" else h
+            start = v - {"": F(0), "1": F(0), "c": ext / 2, "2": ext}[kd]
+            other = (h if ax == "x" else w)
+            ostart = F(0) if shape in ("rect", "box") else -other / 2
+            if ax == "x":
+                box = Box(start, ostart, start + w, ostart + h)
+            else:
+                box = Box(ostart, start, ostart + w, start + h)
+            feats.add("axis1." + ax)
         elif form == "scalar":
             rtx, rex = self.pick_ref()
             deps.append(rex.id)
